@@ -93,11 +93,6 @@ func runC12(c *Ctx) {
 		fresh := len(ret) > 0 && ret[0] == eng.Fresh
 		c.R.Check(fresh, "R12.4", "DefaultClassifier returns a classifier allocated by this call", p.Pos(dc.Pos()),
 			"result provenance: Fresh", fmt.Sprintf("result provenance %v: the classifier is shared between callers (a later AddContent on one result changes what other callers get), so it is no longer equivalent to LoadLicenses on the assets directory", provOf(ret)))
-		for _, v := range e.Viol {
-			if v.Prov&eng.Global != 0 {
-				c.R.Fail("R12.4", "DefaultClassifier: "+v.Construct, p.Pos(v.Pos), "DefaultClassifier writes package-level state: "+v.Detail)
-			}
-		}
 	}
 }
 
